@@ -12,7 +12,7 @@ import (
 
 var c07Profile = &kvh.GenProfile{
 	Weights: map[string]int{
-		"put": 38, "del": 12, "batch": 10, "merge": 22, "reopen": 14, "sync": 2, "get": 1,
+		"put": 38, "del": 12, "batch": 10, "merge": 22, "wipe": 2, "reopen": 14, "sync": 2, "get": 1,
 	},
 	MaxBatchOps: 4,
 	Big:         true,
@@ -66,6 +66,7 @@ func c07Run(t *rapid.T, st *kvh.Stats) {
 	c.SelPct = 100
 	if !e.Thorough() {
 		c.SelPct = 45
+		c.ImgCap = 1200
 	}
 	c.NoPowerLoss = true
 	x, f := newCrashExec(c, st, c07Setup)
